@@ -17,7 +17,7 @@ def pStamp : P Cal.Stamp := do
   let year ← pIntP; let month ← pIntP; let day ← pIntP; let tod ← pIntP
   pure { year, month, day, tod }
 
-def pKind : P Sched.PeriodKind := do
+def pPeriodKind : P Sched.PeriodKind := do
   match (← nat) with
   | 0 => pure .daily | 1 => pure .weekly | 2 => pure .monthly | 3 => pure .quarterly | 4 => pure .yearly
   | n => throw s!"unknown period kind {n}"
@@ -69,7 +69,7 @@ def pGate (idx : List Cal.Stamp) : P (List Bool) := do
   else throw s!"unknown scheduler kind {k}"
 
 partial def pProgTree (idx : List Cal.Stamp) : P (ProgTree Float) := do
-  let k ← pKind
+  let k ← pPeriodKind
   let f1 ← bool; let f2 ← bool; let f3 ← bool
   let ucols ← list nat
   let sel ← pSel
@@ -127,7 +127,7 @@ partial def pGTree (cfg : Cfg Float) (idx : List Cal.Stamp) : P (GTree Float) :=
   let tag ← next
   if tag == "F" then
     -- fixed-income node: gate, specified weights, notional series
-    let k ← pKind
+    let k ← pPeriodKind
     let f1 ← bool; let f2 ← bool; let f3 ← bool
     let ws ← list (do let i ← nat; let x ← float; pure (i, x))
     let notional ← list (opt float)
